@@ -3,7 +3,14 @@
 
 package crdt
 
-import "sync/atomic"
+import (
+	"encoding/json"
+	"fmt"
+	"os"
+	"sync"
+	"sync/atomic"
+	"time"
+)
 
 // Verification hook (build tag "verif" only): the batch worker reports its
 // linearization points (item batched, commit attempted) to an observer
@@ -23,4 +30,53 @@ func verifHook(ev string, kv ...interface{}) {
 	if f, ok := verifHookFn.Load().(func(ev string, kv ...interface{})); ok {
 		f(ev, kv...)
 	}
+}
+
+// Default observer: when the environment variable VERIF_TRACE_FILE is set, every
+// hook event of this process is appended to that file as one JSON object per
+// line ({"ev":..., "seq":n, "t":<microseconds since process start>, ...}), seq
+// and the write under one mutex, so that executions of this package's own tests
+// can be checked against the specification (spec/CrdtPinsetTrace.tla).
+
+var (
+	verifTraceMu    sync.Mutex
+	verifTraceFile  *os.File
+	verifTraceSeq   int
+	verifTraceStart = time.Now()
+)
+
+func init() {
+	path := os.Getenv("VERIF_TRACE_FILE")
+	if path == "" {
+		return
+	}
+	f, err := os.OpenFile(path, os.O_CREATE|os.O_WRONLY|os.O_APPEND, 0644)
+	if err != nil {
+		return
+	}
+	verifTraceFile = f
+	SetVerifHook(verifTraceEvent)
+}
+
+func verifTraceEvent(ev string, kv ...interface{}) {
+	m := map[string]interface{}{"ev": ev}
+	for i := 0; i+1 < len(kv); i += 2 {
+		k, _ := kv[i].(string)
+		switch v := kv[i+1].(type) {
+		case fmt.Stringer:
+			m[k] = v.String()
+		default:
+			m[k] = v
+		}
+	}
+	verifTraceMu.Lock()
+	defer verifTraceMu.Unlock()
+	verifTraceSeq++
+	m["seq"] = verifTraceSeq
+	m["t"] = time.Since(verifTraceStart).Microseconds()
+	b, err := json.Marshal(m)
+	if err != nil {
+		return
+	}
+	verifTraceFile.Write(append(b, '\n'))
 }
